@@ -94,6 +94,12 @@ def process(c):
                 rep["dump_plain"] = obj.model_dump(exclude_none=True)
             except Exception as e:  # noqa
                 rep["dump_plain_err"] = repr(e)[:200]
+            # the JSON-text form with the method's own defaults (no argument at all), parsed back
+            try:
+                import json as _json
+                rep["json_default"] = _json.loads(obj.model_dump_json())
+            except Exception as e:  # noqa
+                rep["json_default_err"] = type(e).__name__
             if N_THREADS <= 1:
                 # what an application sees when it compares two objects: the same wire object validated twice gives
                 # equal objects, and this object against the previous one of its class gives whatever it gives -
